@@ -42,8 +42,17 @@ def rsa_pool(rng):
   pool.append(('lowweight', gen_rsa.low_weight_prime(rng, 256, 4) * gen_rsa.low_weight_prime(rng, 256, 4)))
   pool.extend(gen_rsa.degenerate(rng, 256)[:4])
   # keys that are only factored with a LARGE pattern size, to be checked after shorter keys
-  pool.append(('pattern63@512', gen_rsa.pattern_prime(rng, 256, 63, lowbits=16) * gen_rsa.rprime(rng, 256)))
-  pool.append(('pattern127@1024', gen_rsa.pattern_prime(rng, 512, 127, lowbits=16) * gen_rsa.rprime(rng, 512)))
+  pool.append(('pattern63@1024', gen_rsa.pattern_prime(rng, 512, 63, lowbits=16) * gen_rsa.rprime(rng, 512)))
+  pool.append(('pattern127@2048', gen_rsa.pattern_prime(rng, 1024, 127, lowbits=16) * gen_rsa.rprime(rng, 1024)))
+  # only found with the 255-bit denominator (too large for d0 = 1): lattice checks only
+  from paranoid_crypto.lib import rsa_util as _ru
+  q_ = gen_rsa.rprime(rng, 1536)
+  for _ in range(6):       # keep a member that the real CheckFraction finds ONLY with d = 2^255 - 1
+    n_ = gen_rsa.pattern_prime(rng, 1536, 255, lowbits=rng.choice([0, 4, 8])) * q_
+    if _ru.CheckFraction(gmpy2.mpz(n_), 2**255 - 1) and not any(
+        _ru.CheckFraction(gmpy2.mpz(n_), 2**ps_ - 1) for ps_ in (1, 15, 31, 63, 127, 8, 16, 32, 64, 128)):
+      pool.append(('LATTICE-ONLY pattern255@3072', n_))
+      break
   return pool
 
 
@@ -54,7 +63,10 @@ def correspondence(rep, rng, tier):
   checks = paranoid.GetRSASingleChecks()
   compared = 0
   mism = 0
+  full_pool = pool
   for cname, chk in checks.items():
+    pool = full_pool if cname in ('CheckBitPatterns', 'CheckPermutedBitPatterns', 'CheckSizes') else [
+        t for t in full_pool if not t[0].startswith('LATTICE-ONLY')]
     if cname == 'CheckLowHammingWeight':
       real = rsa_util.CheckLowHammingWeight
       rsa_util.CheckLowHammingWeight = lambda n, real=real: real(n, 2500, 3000)
@@ -95,6 +107,8 @@ def correspondence(rep, rng, tier):
   # model lines for the alone verdicts (ties the per-key functions to the checks once more)
   b = Batch('chk.fermat')
   for tag, n in pool:
+    if tag.startswith('LATTICE-ONLY'):
+      continue
     b.add('chk.fermat %s %s' % (H(n), H(100000)), art.fmt_verdict(checks['CheckFermat'], n), tag=tag,
           canon=art.sort_model_verdict)
   rep.absorb(b, b.run())
